@@ -359,6 +359,16 @@ func checkC07(tier string) int {
 				}
 			}
 			cands = append(cands, releases...)
+			// ... and configuration proposals that only ever reach the mempool check (their values are looked at
+			// there; nothing they name may be in force afterwards): one per block, rotating through the options
+			if !concurrent {
+				upd := []string{"stakingOptions.topValidatorCount:2", "stakingOptions.minSelfDelegationAmount:900000000", "stakingOptions.maturityTime:1", "feeOption.minFeeDecimal:3", "onsOptions.perBlockFees:77", "onsOptions.baseDomainPrice:1", "evidenceOptions.penaltyBasePercentage:39", "propOptions.general.passPercentage:99", "stakingOptions.topValidatorCount:1"}[int(h)%9]
+				cp := gen.ConfigProposalBlocks(w0, run.State, h, fmt.Sprintf("c07-%d", hseed), upd)[0][0]
+				b := []string{"after:BeginBlock", "before:EndBlock", "before:BeginBlock", "after:DeliverTx:0"}[int(h)%4]
+				alt.Inject[b] = append(alt.Inject[b], cp)
+				used = append(used, b)
+				r.Count("injected_configuration_proposal", 1)
+			}
 			if len(releases) > 0 && !concurrent {
 				b := []string{"after:BeginBlock", "before:EndBlock", "after:DeliverTx:0"}[int(h)%3]
 				alt.Inject[b] = append(alt.Inject[b], releases...)
